@@ -1,6 +1,10 @@
 import Orx.KSRun
 import Orx.IW.Core
-import Orx.GenThms
+import Orx.GenThms.Slice
+import Orx.GenThms.Vec
+import Orx.GenThms.Arr
+import Orx.GenThms.Range
+import Orx.GenThms.New
 /-! # C17 Same behaviour in debug and optimized builds; std preconditions respected
 
 The model has no build mode: after the `fix:` commits no arithmetic of the crate can overflow and no std
